@@ -257,6 +257,9 @@ def _callers_report(ctx: Ctx, g: Func) -> Tuple[bool, str]:
         if not isinstance(tgt, ast.Name):
             return False, f"{f.qualname} does not keep the result in a local"
         var = tgt.id
+        # the result is kept as data (None is a value: "no single network"), not used to skip anything
+        if any(isinstance(n, ast.Assign) and isinstance(n.value, ast.Name) and n.value.id == var and any(isinstance(t, ast.Attribute) and src(t.value) == "self" for t in n.targets) for n in own_nodes(f.node)) and not any(isinstance(n, (ast.Continue, ast.Break)) for n in own_nodes(f.node)):
+            continue
         argnames = set()
         for a in list(call.args) + [k.value for k in call.keywords]:
             argnames |= names_in(a)
@@ -271,7 +274,7 @@ def _callers_report(ctx: Ctx, g: Func) -> Tuple[bool, str]:
                 return False, f"{f.qualname} continues silently when the result is None"
         if not ok:
             return False, f"{f.qualname} never tests the result"
-    return True, "every caller logs the item when the result is None (" + ", ".join(sorted({f.qualname for f, _ in callers})) + ")"
+    return True, "every caller logs the item when the result is None, or keeps None as a value of the object (" + ", ".join(sorted({f.qualname for f, _ in callers})) + ")"
 
 
 def r12_4(ctx: Ctx, rep: Report) -> None:
